@@ -16,6 +16,7 @@ from rogw.tranp.syntax.node.embed import Meta, accept_tags, expandable
 from rogw.tranp.syntax.node.interface import IDeclaration, ISymbol, StatementBlock
 from rogw.tranp.syntax.node.node import Node
 from rogw.tranp.errors import Errors
+from rogw.tranp.syntax.node.definition.primary import Comprehension
 
 T_Declable = TypeVar('T_Declable', bound=Declable)
 
@@ -598,6 +599,10 @@ class Closure(Function):
 
 	def ref_vars(self) -> list[Var]:
 		ignore_names = [var.symbol.domain_name for var in self.decl_vars]
+		# 内包表記のループ変数はクロージャーの内側で宣言されるため、参照変数(キャプチャー対象)から除外
+		for comp in [node for node in self.procedural() if isinstance(node, Comprehension)]:
+			ignore_names.extend([comp_var.symbol.domain_name for comp_var in comp.decl_vars])
+
 		return [var for var in PluckVars.ref_vars(self) if var.domain_name not in ignore_names]
 
 
